@@ -24,7 +24,7 @@ def load_corpus(prop):
 def classify_known(prop, case, known):
     """Returns the known finding (status 'known') whose class predicate matches this case."""
     for k in known:
-        if k.get("status") != "known" or k.get("property") != prop:
+        if k.get("status") != "known" or (k.get("property") != prop and prop not in k.get("also_affects", [])):
             continue
         pat = k.get("case_regex")
         if pat and re.search(pat, case):
@@ -43,9 +43,9 @@ def evaluate(mod, lines, wd, tag, env=None):
         # history-acceptance flow: the implementation runs first; the model is asked for the set of
         # outcomes it allows for what was observed of the run (release order, completions)
         impl = run_sharded(HARNESS_BIN, lines, wd, tag + "-impl", timeout=mod_timeout(mod), env=e,
-                           shards=getattr(mod, "IMPL_SHARDS", NPROC))
+                           shards=getattr(mod, "IMPL_SHARDS", NPROC), per_shard=getattr(mod, "PER_SHARD", 64))
         model = run_sharded(DRIVER_BIN, [mod.model_line(c, o) for c, o in zip(lines, impl)], wd, tag + "-model",
-                            timeout=mod_timeout(mod))
+                            timeout=mod_timeout(mod), per_shard=getattr(mod, "PER_SHARD", 64))
         spec = []
         for c, o in zip(lines, impl):
             try:
@@ -53,14 +53,14 @@ def evaluate(mod, lines, wd, tag, env=None):
             except Exception as ex:
                 spec.append("FAIL oracle exception: %r" % (ex,))
         return impl, model, spec
-    model = run_sharded(DRIVER_BIN, lines, wd, tag + "-model", timeout=mod_timeout(mod))
+    model = run_sharded(DRIVER_BIN, lines, wd, tag + "-model", timeout=mod_timeout(mod), per_shard=getattr(mod, "PER_SHARD", 64))
     # the model may tell the harness how many response bytes to wait for (never what they are)
     if hasattr(mod, "hint"):
         impl_lines = [mod.hint(c, m) for c, m in zip(lines, model)]
     else:
         impl_lines = lines
     impl = run_sharded(HARNESS_BIN, impl_lines, wd, tag + "-impl", timeout=mod_timeout(mod), env=e,
-                       shards=getattr(mod, "IMPL_SHARDS", NPROC))
+                       shards=getattr(mod, "IMPL_SHARDS", NPROC), per_shard=getattr(mod, "PER_SHARD", 64))
     if getattr(mod, "RERUN_AFTER_DEATH", False):
         # a case that kills the executor takes the rest of its shard with it: the first dead case is
         # the culprit (ABORT), the ones behind it are run again
@@ -75,7 +75,7 @@ def evaluate(mod, lines, wd, tag, env=None):
             if not rest:
                 break
             again = run_sharded(HARNESS_BIN, [impl_lines[i] for i in rest], wd, tag + "-impl-r%d" % rounds,
-                                timeout=mod_timeout(mod), env=e, shards=getattr(mod, "IMPL_SHARDS", NPROC))
+                                timeout=mod_timeout(mod), env=e, shards=getattr(mod, "IMPL_SHARDS", NPROC), per_shard=getattr(mod, "PER_SHARD", 64))
             for i, x in zip(rest, again):
                 impl[i] = x
     if hasattr(mod, "oracle"):
@@ -124,7 +124,8 @@ def run_property(mod, tier, seed, replay=None):
     # 3. cases: corpus first, then generated
     rng = Rng(seed)
     if replay:
-        lines = [l.rstrip("\n") for l in open(replay) if l.startswith(mod.EXEC + " ") or l.startswith("case: ")]
+        execs = mod.EXEC if isinstance(mod.EXEC, (tuple, list)) else (mod.EXEC,)
+        lines = [l.rstrip("\n") for l in open(replay) if any(l.startswith(x + " ") for x in execs) or l.startswith("case: ")]
         lines = [l[6:] if l.startswith("case: ") else l for l in lines]
         tags = [{} for _ in lines]
     else:
